@@ -78,7 +78,7 @@ PROPERTIES = {
     "C18": dict(
         title="initial-condition generators: output is a function of (options, N, key) only",
         select=lambda k, m: any(e.startswith("exponax.ic.") or e == "exponax.build_ic_set" for e in m["exports"]),
-        quick=dict(seeds=32, groups=None),
+        quick=dict(seeds=24, groups=None),
         thorough=dict(seeds=800, groups=None),
     ),
     "C19": dict(
@@ -132,6 +132,8 @@ def main():
         replay_dir=os.path.join(VERIF, "replays"), label=prop, run_wall_cap=600.0, worker_timeout=2400.0,
         min_budget=40, plans_per_worker=3 if args.tier == "quick" else 6,
         crash_points=tier_cfg.get("crash_points", 48 if args.tier == "quick" else None),
+        switch_points=tier_cfg.get("switch_points", 32 if args.tier == "quick" else None),
+        switch_cap=400 if args.tier == "quick" else 6000,
     )  # fmt: skip
     try:
         if args.replay:
